@@ -35,10 +35,21 @@ ImageCase(g) ==
   IN [kind |-> "image", rows |-> g.rows, cols |-> g.cols, spp |-> g.spp, bits |-> g.bits, frames |-> g.frames,
       data |-> [i \in 1..n |-> Byte(g.frames, i)]]
 
+(* (c) hand-assembled pixel fragment sequences: frames split into 1..3 fragments each   *)
+(* (mixed, so the fragment count differs from the frame count), even fragment sizes,  *)
+(* and the exact basic offset table of PS3.5 A.4 computed by EncapsOps!OffsetTable.   *)
+FragCounts == UNION {SeqsOver({1, 2, 3}, n) : n \in 2..MaxFrames}
+AssembledInputs == {<<cnt, sz>> \in FragCounts \X {2, 4} : \E f \in 1..Len(cnt) : cnt[f] > 1}
+AssembledCase(cnt, sz) ==
+  LET groups == [f \in 1..Len(cnt) |-> [k \in 1..cnt[f] |-> sz + 2 * ((f + k) % 2)]]
+  IN [kind |-> "assembled", groups |-> groups, bot |-> OffsetTable(groups),
+      frags |-> [f \in 1..Len(cnt) |-> [k \in 1..cnt[f] |-> [i \in 1..groups[f][k] |-> Byte(f * 7 + k, i)]]]]
+
 VARIABLE c
-Init == c \in ({<<"h", x>> : x \in HelperInputs} \cup {<<"i", g>> : g \in Geoms})
+Init == c \in ({<<"h", x>> : x \in HelperInputs} \cup {<<"i", g>> : g \in Geoms} \cup {<<"a", x>> : x \in AssembledInputs})
 Next == UNCHANGED c
 Spec == Init /\ [][Next]_c
 
-Emit == PrintT(<<"CASE", ToJson(IF c[1] = "h" THEN HelperCase(c[2][1], c[2][2]) ELSE ImageCase(c[2]))>>)
+Emit == PrintT(<<"CASE", ToJson(IF c[1] = "h" THEN HelperCase(c[2][1], c[2][2])
+                                ELSE IF c[1] = "a" THEN AssembledCase(c[2][1], c[2][2]) ELSE ImageCase(c[2]))>>)
 =============================================================================
